@@ -16,6 +16,9 @@ import (
 func id() string { return os.Getenv("VERIF_ID") }
 
 var rules = map[string]string{
+	"C09": "generated spokfiles of 1-4 tasks x 1-4 commands, each command appending an opaque marker to a side-effect log and exiting with 0 or a status from {1,2,3,42,126,127,255}, failing commands at any position in requested tasks or dependencies, ~70% of tasks with a file dependency; run under one of {plain, --quiet, --json, --force, --quiet --force, --json --force}, then a second plain unforced run. Oracle: the set F of tasks with an executed failing command is read from the log; F non-empty => exit != 0 and stderr names a task of F; second run never reports a task of F skipped, never succeeds as a whole, and re-executes a sole failing task. Non-trivial: a failure observed and (several tasks, or the failing command is not the first, or a non-plain flag); distinct by (spokfile, arguments)",
+	"C20": "generated spokfiles (1-5 tasks incl. 'default' with probability 1/3, 0-4 commands each appending a marker to a log and printing known payloads to stdout and stderr, 0-5 variables used through {{.X}}, docstrings or none, file dependencies so that repeated runs skip) x sequences of 1-5 actions from {--json tasks, --quiet tasks, --show, --vars, no arguments}; oracle: the log is the ground truth of execution; --json is one document listing exactly the tasks of the run in execution order with skipped flags, interpolated command text, exact stdout/stderr/status; --quiet stdout empty; --show one sorted row per task with docstring; --vars one row per variable; no arguments = default task or the listing. Non-trivial: >= 2 tasks with commands, or a report containing a skipped task; distinct by (spokfile, actions)",
+	"C19": "random project trees (nested directories, with/without .gitignore, .env, an existing .spok/) x spokfiles that are valid (generated structure in a random layout, side-effect-free commands), lexer errors, parser errors, load errors (undefined builtin, duplicate task, failing exec, bad template) or absent x every subset of {--show,--vars,--fmt,--init,--force,--quiet,--json,--debug} plus 0-2 task names (defined or not), from the project root or a nested directory; oracle: snapshot of the sandbox HOME before/after — changed paths must lie in the set the action permits (.spok next to the spokfile; --init: new cwd/spokfile and appended cwd/.gitignore, never over an existing spokfile; --fmt: the spokfile only, only when it parses and loads, and then equal to the formatter's output). Non-trivial: --fmt or --init given, or the spokfile is invalid/absent, or cwd is nested; distinct by case",
 	"C12": "random project trees (files inside and outside declared outputs, nested directories, pre-existing and missing outputs, an optional existing .spok/, bystander files beside and above the project) x spokfiles declaring up to 5 outputs of each kind: literal (incl. '', '.', './', '..', '../..', 'spokfile', directories, missing paths), named by variables (strings and join(...), incl. '', '.', join('..')), globs (matching several files, nested, nothing); with probability 1/4 a task named clean. `spok --clean` runs in the uid-dropped sandbox; oracle: whole-sandbox snapshot before/after — frame condition, protected set (project dir, ancestors, spokfile), completeness when spok exits 0. Non-trivial: a designated path exists before and a non-designated file exists in the project; distinct by (tree, spokfile)",
 	"C13": "generated variable sets (string values over printable ASCII without quotes incl. blanks, $, {, }, {{, #, backslash; exec(printf ...) with padded / multi-line / empty output and failing exec; join of 0-4 segments incl. '.', '..', '', absolute) with names that collide with the ambient environment, a generated .env, both or neither; one task printing each variable through {{.NAME}} and through $NAME, run with --json from the project root or a nested directory in the sandbox; oracle: direct textual substitution, an independent path normaliser, the harness's own knowledge of what printf prints. Non-trivial: a variable whose name is also set, differently, in the ambient environment or .env and is read through $NAME; distinct by (spokfile, environment, cwd)",
 	"C17": "every directory chain of depth <= 3 (quick) / 4 (thorough) where each level independently holds {nothing, an entry sorting before and/or after 'spokfile', a regular spokfile (alone or after an earlier entry), a directory named spokfile (empty or holding a regular spokfile)} and child directories named 'd' or 't' x every start level x stop in {each level, an unrelated directory}; file.Find is called in a watchdogged shard (10 s stall limit, normal < 1 ms) and compared with an Lstat walk; plus `spok --show` from nested directories in the sandbox. Non-trivial: the answer is at another level than start, or there is none; distinct by triple",
@@ -65,6 +68,12 @@ func TestPlan(t *testing.T) {
 	switch id() {
 	case "C13":
 		binShards("^TestVars$", 16, 150, 16, 1300)
+	case "C09":
+		binShards("^TestFail$", 16, 60, 16, 1300)
+	case "C20":
+		binShards("^TestReport$", 16, 40, 16, 1000)
+	case "C19":
+		binShards("^TestWrite$", 16, 80, 16, 1500)
 	case "C12":
 		binShards("^TestClean$", 16, 60, 16, 1300)
 	case "C17":
@@ -183,6 +192,24 @@ func TestReplay(t *testing.T) {
 
 func replayOther(t *testing.T, v ev.Violation, raw []byte) *rp.Fail {
 	switch v.Kind {
+	case "fail":
+		var c FailCase
+		if err := json.Unmarshal(raw, &c); err != nil {
+			t.Fatal(err)
+		}
+		return execFail(nil, newBox(t), c)
+	case "report":
+		var c ReportCase
+		if err := json.Unmarshal(raw, &c); err != nil {
+			t.Fatal(err)
+		}
+		return execReport(nil, newBox(t), c)
+	case "write":
+		var c WriteCase
+		if err := json.Unmarshal(raw, &c); err != nil {
+			t.Fatal(err)
+		}
+		return execWrite(nil, newBox(t), c)
 	case "clean":
 		var c CleanCase
 		if err := json.Unmarshal(raw, &c); err != nil {
@@ -198,6 +225,39 @@ func replayOther(t *testing.T, v ev.Violation, raw []byte) *rp.Fail {
 	}
 	t.Fatalf("unknown replay kind %q", v.Kind)
 	return nil
+}
+
+func TestFail(t *testing.T) {
+	s := ev.Open(t, "C09")
+	b := newBox(t)
+	rp.Check(t, s, "fail", genFail, func(c FailCase) *rp.Fail {
+		if s.WantSample() {
+			s.Sample(map[string]any{"spokfile": c.source(), "request": c.Request, "flags": c.Flags})
+		}
+		return execFail(s, b, c)
+	})
+}
+
+func TestReport(t *testing.T) {
+	s := ev.Open(t, "C20")
+	b := newBox(t)
+	rp.Check(t, s, "report", genReport, func(c ReportCase) *rp.Fail {
+		if s.WantSample() {
+			s.Sample(map[string]any{"spokfile": c.source(), "actions": c.Actions})
+		}
+		return execReport(s, b, c)
+	})
+}
+
+func TestWrite(t *testing.T) {
+	s := ev.Open(t, "C19")
+	b := newBox(t)
+	rp.Check(t, s, "write", genWrite, func(c WriteCase) *rp.Fail {
+		if s.WantSample() {
+			s.Sample(map[string]any{"spokfile_class": c.Class, "spokfile": c.Src, "flags": c.Flags, "tasks": c.Tasks, "nested_cwd": c.Nested, "tree": c.Tree})
+		}
+		return execWrite(s, b, c)
+	})
 }
 
 func TestClean(t *testing.T) {
